@@ -3,17 +3,18 @@ from rules import c08, common
 
 
 def run(res, tier, replay=None):
-    prog = extract.load_program("default", only={"sexp.c", "eval.c", "io.c"})
+    prog = extract.load_program("default", only={"sexp.c", "eval.c", "io.c", "vm.c"})
     res.functions = sum(1 for _ in prog.all_funcs())
     c08.run(prog, res)
     c08.run_utf8(prog, res)
+    c08.run_utf8_boundary(prog, res)
     res.assumptions = common.ASSUMPTIONS + ["Scheme-side tables are read with engine/py/slint.py from lib/srfi/38.scm"]
     res.explanation = (
-        "C08, two clauses: (b) every expression that assembles a code point from masked UTF-8 bytes (the reader's character literals, string-ref, read-char, utf8-ref) uses pairwise distinct shifts 6(n-1)..6,0, so all decoders agree on every width class; (a) the escape-letter and character-name tables of the four implementations agree. Native writer "
+        "C08, two clauses: (b) every expression that assembles a code point from masked UTF-8 bytes (the reader's character literals, string-ref, read-char, utf8-ref) uses pairwise distinct shifts 6(n-1)..6,0, so all decoders agree on every width class; (c) every branch that chooses between the one-byte path and the UTF-8 routines splits the code points at 0x80 exactly; (a) the escape-letter and character-name tables of the four implementations agree. Native writer "
         "(case arms of the string switch in sexp_write_one), native reader (case arms of sexp_read_string), sexp_char_names "
         "(constant-evaluated initializer), SRFI-38 writer table escaped-chars, SRFI-38 reader table named-chars and the case "
         "clauses of read-escape-sequence are extracted and compared: reader(writer(c)) = c, both readers map the same letters "
         "to the same characters, all name tables contain the same (name, code) pairs. Not decided: shortest float formatting, "
         "symbol quoting, datum labels.")
     if tier == "thorough":
-        common.thorough_mutations(res, "C08", {"C08": lambda p, r: (c08.run(p, r, root=p.root), c08.run_utf8(p, r, floor=0))})
+        common.thorough_mutations(res, "C08", {"C08": lambda p, r: (c08.run(p, r, root=p.root), c08.run_utf8(p, r, floor=0), c08.run_utf8_boundary(p, r, floor=0))})
